@@ -351,6 +351,34 @@ func c05Order(c *Ctx) {
 				}
 			}
 			c.Check("C05.detach", tn+".ColumnIndex hands out arrays of its own", call.Pos(), len(alias) == 0, tn+".ColumnIndex: "+strings.Join(alias, "; ")+": the indexer's Reset truncates that storage in place and the pages of the next row group overwrite the bounds recorded in the column index of the previous one")
+			// floating point bounds can be NaN (a page holding only NaN), which
+			// plain comparisons never find out of order: the order function of a
+			// float indexer looks for NaN (x != x or math.IsNaN) itself
+			if sl, isSlice := minF.Type().Underlying().(*types.Slice); isSlice {
+				if b, isBasic := sl.Elem().Underlying().(*types.Basic); isBasic && b.Info()&types.IsFloat != 0 {
+					nanAware := false
+					for _, o := range Origins(args[3], OriginOpts{}) {
+						if o.Kind != OrgCall {
+							continue
+						}
+						if sc := o.Call.Common().StaticCallee(); sc != nil && sc.Blocks != nil {
+							allInstrs(sc, false, func(_ *ssa.Function, ins ssa.Instruction) {
+								switch x := ins.(type) {
+								case *ssa.BinOp:
+									if x.Op == token.NEQ && x.X == x.Y {
+										nanAware = true
+									}
+								case ssa.CallInstruction:
+									if calleeName(x) == "math.IsNaN" {
+										nanAware = true
+									}
+								}
+							})
+						}
+					}
+					c.Check(rule, tn+".ColumnIndex orders bounds that may be NaN with a NaN-aware function", call.Pos(), nanAware, tn+" computes the boundary order of floating point bounds with comparisons alone: the NaN bounds of a page holding only NaN are never out of order, the index is declared ascending around them and the binary search misses values")
+				}
+			}
 			// the two order functions are the same function
 			f3, f4 := orderCallee(args[3]), orderCallee(args[4])
 			c.Check(rule, tn+".ColumnIndex uses one order function for both arrays", call.Pos(), f3 != "" && f3 == f4, "min and max orders are computed by different functions ("+f3+" / "+f4+")")
